@@ -100,3 +100,27 @@ def to_yaml(sp, loop="spec", rank_order="spec", with_part=True):
     else:
         lo = None
     return mk_yaml(decl, [expr], ro=ro, part={"Z": part} if part else None, lo={"Z": lo} if lo else None)
+
+
+def exec_specs(wd, report, num, seed, want="plain", **params):
+    """SpecSpace.tla behaviours as specifications for the execution properties.
+    want: 'plain' (no partitioning, no affine), 'shape' (only shape directives), 'occupancy' (at least one occupancy directive)."""
+    p = dict(AllowAffine="FALSE", AllowPart="FALSE" if want == "plain" else "TRUE")
+    p.update(params)
+    out = []
+    for sp in generate(wd, report, num=num, seed=seed, tag="ss" + want, **p):
+        kinds = {d["k"] for st in sp["stacks"] for d in st}
+        if want == "plain" and kinds:
+            continue
+        if want == "shape" and (not kinds or "uniform_occupancy" in kinds):
+            continue
+        if want == "occupancy" and "uniform_occupancy" not in kinds:
+            continue
+        decl, tens, expr = structure(sp)
+        y = to_yaml(sp, loop="spec", rank_order="spec", with_part=want != "plain")
+        vs = ["M", "N", "K", "J"][:sp["nv"]]
+        cfg = {}
+        for x, v in enumerate(vs):
+            cfg[v] = (3 if want == "shape" else 4 if want == "occupancy" else 2) if sp["stacks"][x] else 2
+        out.append({"yaml": y, "configs": [cfg], "family": "specspace-" + want, "key": y})
+    return out
